@@ -27,6 +27,8 @@ type SpecEnv struct {
 	inOld bool
 	reach string
 	pol   int // +1: positive position of a goal being proved; -1: negative; 0: assumption
+	// entryVars: parameter values at function entry (what names mean inside old(...)).
+	entryVars map[string]sval
 }
 
 func (f *Frame) specEnv(st, old *State, pkg *ssa.Package) *SpecEnv {
@@ -46,8 +48,10 @@ func (env *SpecEnv) sv(term string, t types.Type) sval {
 // funcEnv: environment for the function's own contract: parameters by name.
 func (f *Frame) funcEnv(st, old *State) *SpecEnv {
 	env := f.specEnv(st, old, nil)
+	env.entryVars = map[string]sval{}
 	for _, p := range f.fn.Params {
 		env.vars[p.Name()] = env.sv(f.vals[p], p.Type())
+		env.entryVars[p.Name()] = env.vars[p.Name()]
 	}
 	for _, fv := range f.fn.FreeVars {
 		env.vars[fv.Name()] = env.sv(f.vals[fv], fv.Type())
@@ -194,6 +198,12 @@ func (env *SpecEnv) eval(e Expr) (sval, error) {
 		env.inOld = saved
 		return v, err
 	case *EIdent:
+		if env.inOld {
+			// old(p): parameters denote their values at function entry
+			if v, ok := env.entryVars[x.Name]; ok {
+				return v, nil
+			}
+		}
 		if v, ok := env.vars[x.Name]; ok {
 			return v, nil
 		}
@@ -601,6 +611,22 @@ func findField(st *types.Struct, name string) ([]int, types.Type, bool) {
 
 func (env *SpecEnv) evalIndex(x *EIndex) (sval, error) {
 	f := env.f
+	// ghost heap read: name[key]
+	if id, ok := x.X.(*EIdent); ok {
+		if _, isVar := env.vars[id.Name]; !isVar {
+			if gs, ok := ghostHeaps[id.Name]; ok {
+				k, err := env.eval(x.I)
+				if err != nil {
+					return sval{}, err
+				}
+				if k.sort != gs[0] {
+					return sval{}, fmt.Errorf("ghost heap %s: key has sort %s, want %s", id.Name, k.sort, gs[0])
+				}
+				h := f.heap(env.state(), "G_"+id.Name)
+				return sval{t: fmt.Sprintf("(select %s %s)", h, k.t), sort: gs[1]}, nil
+			}
+		}
+	}
 	v, err := env.eval(x.X)
 	if err != nil {
 		return sval{}, err
